@@ -82,16 +82,32 @@ def run_check(prop, rules, tier, explanation, assumptions, trusted_base, nontriv
         except factsmod.MachineryError as e:
             print("MACHINERY-ERROR: %s" % e, file=sys.stderr)
             return 2
-        lib = Program(f["lib"])
-        binp = Program(f["bin"])
-        renamed = 0
+        roles = {}
         try:
             with open(os.path.join(VERIF, "reference", "local_roles.json")) as fh:
                 roles = json.load(fh).get(cfg, {})
-            from .mir import apply_local_roles
-            renamed = apply_local_roles(lib, roles.get("lib")) + apply_local_roles(binp, roles.get("bin"))
         except FileNotFoundError:
             pass
+        spliced = []
+        if roles:
+            import copy
+            from .mir import inline_new_helpers
+            # helpers that did not exist when the rules were written are spliced back into their callers (on a copy: the
+            # loaded facts are shared between rule runs of one process)
+            for part in ("lib", "bin"):
+                known = set(roles.get(part, {}))
+                ids = {n_["id"] for n_ in f[part]["fns"]}
+                from .mir import norm as _norm
+                if any(_norm(i) not in known and "{closure" not in i for i in ids):
+                    f = dict(f)
+                    f[part] = copy.deepcopy(f[part])
+                    spliced += inline_new_helpers(f[part], known)
+        lib = Program(f["lib"])
+        binp = Program(f["bin"])
+        renamed = 0
+        if roles:
+            from .mir import apply_local_roles
+            renamed = apply_local_roles(lib, roles.get("lib")) + apply_local_roles(binp, roles.get("bin"))
         from . import tables as _tables
         _tables.PEVAL_PROG = lib
         ctx = Ctx(prop, tier, cfg, lib, binp, f["repo"])
